@@ -75,6 +75,8 @@ func (R *Repository) AddCRL(crlLocations *core.CRLLocations, chains *core.Certif
 		if R.isEntryLoaded(entry) == false {
 			return crlAdded, R.loadActively(entry, chains, crlLocations)
 		}
+	} else if !crlAdded {
+		R.rememberChainsOfNotLoadedEntry(entry, chains)
 	}
 
 	if R.isLastUpdateSignatureVerifyFailed(entry) {
@@ -82,6 +84,20 @@ func (R *Repository) AddCRL(crlLocations *core.CRLLocations, chains *core.Certif
 		R.tryUpdateSignatureCertFromChain(entry, chains)
 	}
 	return crlAdded, nil
+}
+
+// rememberChainsOfNotLoadedEntry replaces the chains a not yet loaded entry is verified with in the background.
+// Without this the entry keeps the chains of the first handshake which named the crl for ever: if those can not
+// verify the crl (e.g. certificate of another CA naming the same distribution point) the crl never gets loaded
+func (R *Repository) rememberChainsOfNotLoadedEntry(entry *Entry, chains *core.CertificateChains) {
+	if chains == nil {
+		return
+	}
+	entry.entryLock.Lock()
+	defer entry.entryLock.Unlock()
+	if !entry.Loaded {
+		entry.Chains = chains
+	}
 }
 
 func (R *Repository) isLastUpdateSignatureVerifyFailed(entry *Entry) bool {
